@@ -9,6 +9,7 @@
 import GM.Props.C02c
 import GM.Props.Consts.Parser
 import GM.Props.C02Emph
+import GM.Props.C02Esc
 import GM.Props.C02Frag
 import GM.Props.C02Link
 
@@ -146,5 +147,18 @@ theorem links_not_nested : type_of% @GM.Props.C02Link.links_not_nested := @GM.Pr
 /-- (re-export of `GM.Props.C02Link.link_html_balanced`) the prescribed HTML of every tree is tag-balanced: the concatenation of an event sequence in which `<a …>` and
     `</a>` nest properly (images, breaks, text and raw HTML are leaves; raw HTML is opaque) -/
 theorem link_html_balanced : type_of% @GM.Props.C02Link.link_html_balanced := @GM.Props.C02Link.link_html_balanced
+/-- (re-export of `GM.Props.C02Esc.escape_state_does_not_cross_line_end`, package escfix, repair 24c9f23) in every state in which an iteration of
+    the line loop of parseBlock begins (the first, and the one after every end of line; not behind a `goto retry`) the flag `escaped`
+    is false — for ANY inline parsers and block: a backslash never escapes across a line end (CommonMark 2.4 / 6.7) -/
+theorem escape_state_does_not_cross_line_end : type_of% @GM.Props.C02Esc.escape_state_does_not_cross_line_end := @GM.Props.C02Esc.escape_state_does_not_cross_line_end
+
+/-- (re-export of `GM.Props.C02Esc.lineLoop_line_end_resets`) the same on the concrete inline phase: after the end of a line the loop goes on with
+    `escaped = false`, whatever the byte loop left in the flag -/
+theorem lineLoop_line_end_resets : type_of% @GM.Props.C02Esc.lineLoop_line_end_resets := @GM.Props.C02Esc.lineLoop_line_end_resets
+
+/-- (re-export of `GM.Props.C02Esc.findClosure_stop_excludes_padding`, package escfix, repair 9e57c92) FindClosure on a block reader over lines
+    with ANY virtual paddings, closer not a space: the last segment it hands out stops exactly at the source offset of a closer byte
+    (the padding at the head of the peeked line is not counted) -/
+theorem findClosure_stop_excludes_padding : type_of% @GM.Props.C02Esc.findClosure_stop_excludes_padding := @GM.Props.C02Esc.findClosure_stop_excludes_padding
 
 end GM.Props.C02
